@@ -8,6 +8,9 @@ Three small exact TLA+ specifications (specs/misc), each bound to the real code 
                    u.Mul(u) / u.Div(u) / u.Add(u), typed operands, Copy, SetValue, New with zero
                    entries / nil map).  R1: group laws, map-layer refinement lemma, action
                    properties.  R2: every history up to Depth calls replayed into unit.Unit.
+                   R3 (code->spec): 400-call random histories on three real registers are recorded (exponent
+                   vectors of all registers and the formatted receiver after every call) and validated by TLC
+                   against UnitAlgebraTrace.tla, which reuses UnitAlgebra's Apply.
  UnitRegistry.tla  NewDimension / SymbolExists / Dimension.String as a registry machine, and the ordering
                    of user-defined dimensions in formatted output.
  ScalarFloat.tla   floats/scalar: float64 as a point of the ULP lattice (64-bit naturals as 21-bit limbs):
@@ -43,7 +46,7 @@ def unit_part(ctx, hb):
     # R2: every history of <= 2 calls from all 16 initial register files ...
     jobs = [("d2 all", dict(NREG=2, DEPTH=2, VS=vs, SHARD=0, NSHARDS=1, EMIT="TRUE"))]
     # ... and of <= 3 calls from the initial files of one shard (quick) / all shards (thorough)
-    shards = range(16) if thorough else [ctx.seed % 16, (ctx.seed * 7 + 5) % 16]
+    shards = range(16) if thorough else [ctx.seed % 16, (ctx.seed * 7 + 5) % 16, (ctx.seed * 11 + 10) % 16]
     for s in sorted(set(shards)):
         jobs.append(("d3 shard %d" % s, dict(NREG=2, DEPTH=3, VS=vs, SHARD=s, NSHARDS=16, EMIT="TRUE")))
     if thorough:
@@ -56,6 +59,25 @@ def unit_part(ctx, hb):
         cases = ctx.gen("misc/UnitAlgebra.tla", "misc/UnitAlgebra.cfg", subst=sub, name="R2 gen unit " + name)
         ctx.replay(hb, "unitalg", cases, name="R2 replay unit " + name)
     ctx.parallel([(lambda n=n, s=s: one(n, s)) for n, s in jobs], width=4)
+
+
+def unit_trace_part(ctx, hb):
+    """R3 code->spec: long random histories of the real units, judged by TLC."""
+    import shutil
+    hist = 20 if ctx.tier == "thorough" else 5
+    tr = os.path.join(ctx.work, "unit-trace.ndjson")
+    summ = ctx.record(hb, "unitalg", tr, ["hist=%d" % hist, "steps=400"], name="R3 record unit histories")
+    ok, st = ctx.validate("misc/UnitAlgebraTrace.tla", "misc/UnitAlgebraTrace.cfg", tr, subst=dict(NREG=3),
+                          name="R3 validate unit histories")
+    if ok:
+        ctx.traces += summ.get("traces", 0)
+    else:
+        keep = os.path.join(ctx.work, "..", "..", "replays", "X01")
+        os.makedirs(keep, exist_ok=True)
+        dst = os.path.abspath(os.path.join(keep, "unit-trace-seed%d.ndjson" % ctx.seed))
+        shutil.copy(tr, dst)
+        ctx.violation("unitalg:trace-rejected", st.get("detail", "")[:600],
+                      {"trace": dst, "spec": "misc/UnitAlgebraTrace.tla", "cfg": dict(NREG=3)})
 
 
 def registry_part(ctx, hb):
@@ -92,6 +114,7 @@ def run(ctx):
     load_local_known(ctx)
     hb = ctx.build("")
     unit_part(ctx, hb)
+    unit_trace_part(ctx, hb)
     registry_part(ctx, hb)
     scalar_part(ctx, hb)
     order_part(ctx, hb)
@@ -107,7 +130,7 @@ def run(ctx):
     ]
     return ctx.finish(
         rule="unit: one case = one history of receiver-mutating calls on a register file of real *unit.Unit values, "
-             "all queries compared at its end (non-trivial = at least one call); registry: one history of NewDimension calls "
+             "all queries compared at its end (non-trivial = at least one call); R3: one trace = one 400-call random history; registry: one history of NewDimension calls "
              "(non-trivial = something was registered); scalar: one case = one point of a table (non-trivial = the "
              "documentation fixes the answer, i.e. not an 'open' infinity comparison); order: one input list "
              "(non-trivial = not already sorted).",
@@ -117,6 +140,12 @@ def run(ctx):
 def replay(ctx, path):
     load_local_known(ctx)
     d = json.load(open(path))["data"]
+    if "trace" in d:
+        ok, st = ctx.validate(d["spec"], d["spec"].replace(".tla", ".cfg"), d["trace"], subst=d["cfg"])
+        print("trace accepted" if ok else "trace rejected: " + st.get("detail", "")[:800])
+        if not ok:
+            print("VIOLATION property=X01 replay=%s" % path)
+        return 0 if ok else 1
     one = os.path.join(ctx.work, "one.ndjson")
     with open(one, "w") as fh:
         fh.write(json.dumps(d["failure"]["case"]) + "\n")
